@@ -63,6 +63,8 @@ type Ctl struct {
 	paceBlocked bool
 	paceHits    uint64
 	paceArgs    []uint64
+	paceElapsed []time.Duration
+	du          time.Duration
 	paceCh      chan paceAns
 
 	// targeter
@@ -91,6 +93,7 @@ func (p ctlPacer) Pace(elapsed time.Duration, hits uint64) (time.Duration, bool)
 	c.paceBlocked = true
 	c.paceHits = hits
 	c.paceArgs = append(c.paceArgs, hits)
+	c.paceElapsed = append(c.paceElapsed, elapsed)
 	c.mu.Unlock()
 	a := <-c.paceCh
 	c.mu.Lock()
@@ -119,7 +122,12 @@ func (t rt) RoundTrip(req *http.Request) (*http.Response, error) {
 
 // New starts a controlled attack (duration 0) and waits for the first quiescence.
 func New(workers, maxWorkers uint64, maxFirst bool) *Ctl {
-	c := &Ctl{paceCh: make(chan paceAns), inTr: map[uint64]chan struct{}{}}
+	return NewWithDuration(workers, maxWorkers, maxFirst, 0)
+}
+
+// NewWithDuration is New with an attack duration.
+func NewWithDuration(workers, maxWorkers uint64, maxFirst bool, du time.Duration) *Ctl {
+	c := &Ctl{paceCh: make(chan paceAns), inTr: map[uint64]chan struct{}{}, du: du}
 	// the two options may be given in either order
 	opts := []func(*vegeta.Attacker){vegeta.Workers(workers), vegeta.MaxWorkers(maxWorkers)}
 	if maxFirst {
@@ -139,7 +147,7 @@ func New(workers, maxWorkers uint64, maxFirst bool) *Ctl {
 		t.URL = "http://verif.invalid/" + strconv.Itoa(c.tgtCalls)
 		return nil
 	})
-	c.res = c.atk.Attack(tr, ctlPacer{c}, 0, "ctl")
+	c.res = c.atk.Attack(tr, ctlPacer{c}, c.du, "ctl")
 	return c
 }
 
@@ -293,6 +301,11 @@ func (c *Ctl) SetFail(f bool) {
 func (c *Ctl) TargeterErrors() int { c.mu.Lock(); defer c.mu.Unlock(); return c.tgtErrored }
 func (c *Ctl) TargeterCalls() int  { c.mu.Lock(); defer c.mu.Unlock(); return c.tgtCalls }
 func (c *Ctl) HighWater() int      { c.mu.Lock(); defer c.mu.Unlock(); return c.hwm }
+func (c *Ctl) PaceElapsed() []time.Duration {
+	c.mu.Lock()
+	defer c.mu.Unlock()
+	return append([]time.Duration{}, c.paceElapsed...)
+}
 func (c *Ctl) PaceArgs() []uint64 {
 	c.mu.Lock()
 	defer c.mu.Unlock()
